@@ -9,35 +9,35 @@ TB = ("Trusted: Coq 8.16.1 kernel + vm_compute; the fail-closed Python-ast -> Ga
 AX = "Axioms (Print Assumptions): the stdlib real-number axioms through Flocq (sig_forall_dec, sig_not_dec, functional_extensionality_dep, classic) "
 CLAIMED = {
  'C01': dict(ref='6 C01',
-   text="Coq theorems: for all five set-similarity joins the API-level model (dropna, min(n_jobs,rows), GENERATED split_table, per-chunk core, concat, missing pairs) returns every qualifying pair (C01_api, C01_api_total), resting on: prefix-filter lemma on sorted lists, position-filter loop invariant, size/overlap/prefix arithmetic of the GENERATED filter_utils formulas over all doubles in the envelope (Flocq), injectivity of the token ranking, the partition property of the generated split_table; the REGENERATED index/position_index.py + PositionFilter.find_candidates and utils/token_ordering.py are proved to refine the pairwise model (position_index_code_refines_model, token_order_of_source_is_model). Tie to the code: translator regenerates the formulas/helpers each run; Model/Api.v and complete_spec are evaluated inside Coq on whole join calls of the implementation.",
+   text="Coq theorems: for all five set-similarity joins the API-level model (dropna, min(n_jobs,rows), GENERATED split_table, per-chunk core, concat, missing pairs) returns every qualifying pair (C01_api, C01_api_total), resting on: prefix-filter lemma on sorted lists, position-filter loop invariant, size/overlap/prefix arithmetic of the GENERATED filter_utils formulas over all doubles in the envelope (Flocq), injectivity of the token ranking, the partition property of the generated split_table; the REGENERATED index/position_index.py + PositionFilter.find_candidates and utils/token_ordering.py are proved to refine the pairwise model (position_index_code_refines_model, token_order_of_source_is_model). Tie to the code: translator regenerates the formulas/helpers each run; Model/Api.v and complete_spec are evaluated inside Coq on whole join calls of the implementation. CODE-LEVEL: the function REGENERATED from the Python source on every run (Gen/WrapperGen.v, FilterWrapperGen.v, MatcherGen.v over the frame model Model/Frame.v) is proved to refine the API model end to end, and the composition is stated directly about the code (Cxx_code_* theorems): for all well-formed frames the returned frame has header_spec and its rows, read at key level, satisfy complete_spec/sound_spec/missing_spec/empty_spec.",
    note=TB + AX + "for the J/C/D arithmetic and split_table; OVERLAP / OVERLAP_COEFFICIENT parts closed. Envelope: 2^-30<=t<=1, token counts < 2^20, rows < 2^31, duplicate-free token lists (set tokenizer).",
    technique="Coq proof (Flocq arithmetic over translated formulas + list combinatorics + API-level refinement); in-Coq evaluation of model and completeness spec on implementation output"),
  'C02': dict(ref='6 C02',
-   text="Coq theorems: every row of the API-level model's result names existing keys, occurs once per key pair, satisfies the comparison with the similarity recomputed from the two token sets and carries that score (rounded for J/C/D, unrounded for overlap coefficient, integer overlap for overlap_join, 1.0 for admitted empty pairs) (C02_api and the pair/core-level theorems); the regenerated position index / find_candidates / token ordering are proved to refine the model. Tie: sound_spec and the model evaluated inside Coq on whole join calls.",
+   text="Coq theorems: every row of the API-level model's result names existing keys, occurs once per key pair, satisfies the comparison with the similarity recomputed from the two token sets and carries that score (rounded for J/C/D, unrounded for overlap coefficient, integer overlap for overlap_join, 1.0 for admitted empty pairs) (C02_api and the pair/core-level theorems); the regenerated position index / find_candidates / token ordering are proved to refine the model. Tie: sound_spec and the model evaluated inside Coq on whole join calls. CODE-LEVEL: the function REGENERATED from the Python source on every run (Gen/WrapperGen.v, FilterWrapperGen.v, MatcherGen.v over the frame model Model/Frame.v) is proved to refine the API model end to end, and the composition is stated directly about the code (Cxx_code_* theorems): for all well-formed frames the returned frame has header_spec and its rows, read at key level, satisfy complete_spec/sound_spec/missing_spec/empty_spec.",
    note=TB + "Pair-level soundness (C02_pair_jcd) is closed under the global context; the API-level statement inherits the real-number axioms from the totality/partition part.",
    technique="Coq proof (list reasoning, rank injectivity, API-level refinement); in-Coq evaluation of model and soundness spec on implementation output"),
  'C03': dict(ref='6 C03',
-   text="Coq theorems about the edit-distance join core: sound (reported score is the Levenshtein distance, proved equal to the declarative lev_spec; comparison holds), each key pair once, and EXACT characterisation for q-gram rows (returned iff distance satisfies the comparison and the bags share a q-gram) for every q>=1, padded or not; padded corollary max(len) >= q*tau-q+2; rests on the q-gram count filter (one edit destroys at most q q-grams) and the prefix lemma on sorted bags. Tie: generated EDIT_DISTANCE formulas; complete_spec/sound_spec and the model evaluated inside Coq on edit_distance_join calls.",
+   text="Coq theorems about the edit-distance join core: sound (reported score is the Levenshtein distance, proved equal to the declarative lev_spec; comparison holds), each key pair once, and EXACT characterisation for q-gram rows (returned iff distance satisfies the comparison and the bags share a q-gram) for every q>=1, padded or not; padded corollary max(len) >= q*tau-q+2; rests on the q-gram count filter (one edit destroys at most q q-grams) and the prefix lemma on sorted bags. Tie: generated EDIT_DISTANCE formulas; complete_spec/sound_spec and the model evaluated inside Coq on edit_distance_join calls. CODE-LEVEL: the function REGENERATED from the Python source on every run (Gen/WrapperGen.v, FilterWrapperGen.v, MatcherGen.v over the frame model Model/Frame.v) is proved to refine the API model end to end, and the composition is stated directly about the code (Cxx_code_* theorems): for all well-formed frames the returned frame has header_spec and its rows, read at key level, satisfy complete_spec/sound_spec/missing_spec/empty_spec.",
    note=TB + "All C03 theorems are closed under the global context (integer/list reasoning). API-level lift for edit distance: see level text of C10/C08 and DESIGN.md.",
    technique="Coq proof (Levenshtein edit scripts, q-gram count filter, prefix lemma on bags); in-Coq evaluation of model and specs on implementation output"),
  'C04': dict(ref='6 C04',
-   text="Coq theorems: filter_pair of Size/Prefix/Position never drops a qualifying pair under JACCARD/COSINE/DICE (all doubles in the envelope), OVERLAP (integer thresholds) and EDIT_DISTANCE (q-gram bags, incl. PositionFilter with its frozen left position), the filter_tables candidate tests likewise for any table-level token order; OverlapFilter exact; API-level filter_tables theorems (C04_api_filter_tables, incl. EDIT_DISTANCE); the regenerated index classes and find_candidates of Size/Prefix/Position filters are proved to refine the pairwise candidate tests. SuffixFilter: the full-strength statement is REFUTED on the model (C04_suffix_refuted, witness replayed on the real SuffixFilter = known finding). Tie: generated formulas; fp_safe_spec / complete_spec and models evaluated inside Coq on filter_pair, filter_tables and filter_candset calls.",
+   text="Coq theorems: filter_pair of Size/Prefix/Position never drops a qualifying pair under JACCARD/COSINE/DICE (all doubles in the envelope), OVERLAP (integer thresholds) and EDIT_DISTANCE (q-gram bags, incl. PositionFilter with its frozen left position), the filter_tables candidate tests likewise for any table-level token order; OverlapFilter exact; API-level filter_tables theorems (C04_api_filter_tables, incl. EDIT_DISTANCE); the regenerated index classes and find_candidates of Size/Prefix/Position filters are proved to refine the pairwise candidate tests. SuffixFilter: the full-strength statement is REFUTED on the model (C04_suffix_refuted, witness replayed on the real SuffixFilter = known finding). Tie: generated formulas; fp_safe_spec / complete_spec and models evaluated inside Coq on filter_pair, filter_tables and filter_candset calls. CODE-LEVEL: the function REGENERATED from the Python source on every run (Gen/WrapperGen.v, FilterWrapperGen.v, MatcherGen.v over the frame model Model/Frame.v) is proved to refine the API model end to end, and the composition is stated directly about the code (Cxx_code_* theorems): for all well-formed frames the returned frame has header_spec and its rows, read at key level, satisfy complete_spec/sound_spec/missing_spec/empty_spec. Float thresholds of the integer-valued measures (repaired defect 13a9b6a): for every finite double the formulas / filter verdicts / generated filter_pair / api_join at threshold f equal those at floor f (edit distance) resp. ceil f (overlap), and the safety theorems transfer (C04_*_float).",
    note=TB + AX + "for the J/C/D arithmetic only. SuffixFilter safety is a known finding (known_findings.json: suffix-filter-unsafe).",
    technique="Coq proof (Flocq arithmetic over translated formulas, prefix/position lemmas on sets and bags) + refutation witness; in-Coq evaluation of models and specs on implementation output"),
  'C05': dict(ref='6 C05',
-   text="Coq theorems on the row-wise model of apply_matcher with sim_function, tokenizer and score type as arbitrary section variables: result = candidate rows filtered in order, original _id and keys, score = sim_function value, six operators, missing rows kept iff allow_missing with NaN; same result for every n_jobs (C05_njobs, via the partition theorem about the generated split_table). Tie: the model is evaluated inside Coq on independently computed sim_function values and compared (order, _id, keys, score) with whole apply_matcher calls incl. both token-cache paths and n_jobs variants.",
+   text="Coq theorems on the row-wise model of apply_matcher with sim_function, tokenizer and score type as arbitrary section variables: result = candidate rows filtered in order, original _id and keys, score = sim_function value, six operators, missing rows kept iff allow_missing with NaN; same result for every n_jobs (C05_njobs, via the partition theorem about the generated split_table). Tie: the model is evaluated inside Coq on independently computed sim_function values and compared (order, _id, keys, score) with whole apply_matcher calls incl. both token-cache paths and n_jobs variants. CODE-LEVEL: the function REGENERATED from the Python source on every run (Gen/WrapperGen.v, FilterWrapperGen.v, MatcherGen.v over the frame model Model/Frame.v) is proved to refine the API model end to end, and the composition is stated directly about the code (Cxx_code_* theorems): for all well-formed frames the returned frame has header_spec and its rows, read at key level, satisfy complete_spec/sound_spec/missing_spec/empty_spec.",
    note=TB + "Closed under the global context. n_jobs independence of the model uses the split_table partition theorem (C10). Pickling of bound methods across real processes is runtime behaviour: exercised by the thorough tier only.",
    technique="Coq proof (list reasoning over a parametric model); in-Coq evaluation of the model on implementation output"),
  'C06': dict(ref='6 C06',
-   text="Coq theorems: filter_candset = positions of the rows whose pair filter_pair keeps, in order (filter_pair arbitrary); OverlapFilter.filter_pair keeps a pair iff both strings non-empty and overlap satisfies comp_op; OverlapFilter.filter_tables lists exactly those pairs once with score = overlap (set tokenizer), also at API level (C06_api_overlap_filter_tables) and for every n_jobs; the regenerated InvertedIndex.build / OverlapFilter.find_candidates refine the model's overlap count. Tie: candset model, fp_overlap_exact_spec, sound_spec/complete_spec evaluated inside Coq on real calls (index labels and columns compared).",
+   text="Coq theorems: filter_candset = positions of the rows whose pair filter_pair keeps, in order (filter_pair arbitrary); OverlapFilter.filter_pair keeps a pair iff both strings non-empty and overlap satisfies comp_op; OverlapFilter.filter_tables lists exactly those pairs once with score = overlap (set tokenizer), also at API level (C06_api_overlap_filter_tables) and for every n_jobs; the regenerated InvertedIndex.build / OverlapFilter.find_candidates refine the model's overlap count. Tie: candset model, fp_overlap_exact_spec, sound_spec/complete_spec evaluated inside Coq on real calls (index labels and columns compared). CODE-LEVEL: the function REGENERATED from the Python source on every run (Gen/WrapperGen.v, FilterWrapperGen.v, MatcherGen.v over the frame model Model/Frame.v) is proved to refine the API model end to end, and the composition is stated directly about the code (Cxx_code_* theorems): for all well-formed frames the returned frame has header_spec and its rows, read at key level, satisfy complete_spec/sound_spec/missing_spec/empty_spec.",
    note=TB + "Closed under the global context.",
    technique="Coq proof (list reasoning); in-Coq evaluation of models and specs on implementation output"),
  'C08': dict(ref='6 C08',
-   text="Coq theorems on the API-level model (every join and filter_tables): allow_missing=False -> no output row involves a row with a missing value; allow_missing=True -> same success, result = the False result ++ the missing pairs, each pair with a missing side exactly once with NaN score (missing_spec for every entry, any n_jobs); apply_matcher rows with a missing side kept iff allow_missing. Tie: both allow_missing values run on every forced pattern of missing values (none/left only/right only/both/all), specs evaluated inside Coq; an exception is a violation. The public wrappers jaccard/cosine/dice_join_py are REGENERATED from the source (Gen/WrapperGen.v over the frame model Model/Frame.v) and proved end to end (dropna, projection, split_table, per-chunk loop, concat, missing-value pairs, _id) to produce header_spec + the rows of api_join through the declared projection (generated_*_wrapper_refines_model).",
+   text="Coq theorems on the API-level model (every join and filter_tables): allow_missing=False -> no output row involves a row with a missing value; allow_missing=True -> same success, result = the False result ++ the missing pairs, each pair with a missing side exactly once with NaN score (missing_spec for every entry, any n_jobs); apply_matcher rows with a missing side kept iff allow_missing. Tie: both allow_missing values run on every forced pattern of missing values (none/left only/right only/both/all), specs evaluated inside Coq; an exception is a violation. The public wrappers jaccard/cosine/dice_join_py are REGENERATED from the source (Gen/WrapperGen.v over the frame model Model/Frame.v) and proved end to end (dropna, projection, split_table, per-chunk loop, concat, missing-value pairs, _id) to produce header_spec + the rows of api_join through the declared projection (generated_*_wrapper_refines_model). CODE-LEVEL: the function REGENERATED from the Python source on every run (Gen/WrapperGen.v, FilterWrapperGen.v, MatcherGen.v over the frame model Model/Frame.v) is proved to refine the API model end to end, and the composition is stated directly about the code (Cxx_code_* theorems): for all well-formed frames the returned frame has header_spec and its rows, read at key level, satisfy complete_spec/sound_spec/missing_spec/empty_spec.",
    note=TB + "C08_exactly_once inherits the real-number axioms from the split_table partition theorem; the rest is closed.",
    technique="Coq proof (API-level refinement, list reasoning); in-Coq evaluation of specs on implementation output"),
  'C09': dict(ref='6 C09',
-   text="Coq theorems: on the API-level model of the five set-similarity joins a both-empty pair is returned iff allow_empty (never by overlap_join), with score 1.0, and a pair with exactly one empty side never, for every threshold/operator/n_jobs (C09_joins); filter_pair of Size/Prefix/Position/Suffix keeps two empty token lists iff allow_empty (never under OVERLAP) whatever the threshold (C09_filter_pair). Tie: empty_spec / fp_empty_spec / sound_spec evaluated inside Coq on joins, filter_tables and filter_pair calls over tables salted with empty, delimiter-only and too-short strings.",
+   text="Coq theorems: on the API-level model of the five set-similarity joins a both-empty pair is returned iff allow_empty (never by overlap_join), with score 1.0, and a pair with exactly one empty side never, for every threshold/operator/n_jobs (C09_joins); filter_pair of Size/Prefix/Position/Suffix keeps two empty token lists iff allow_empty (never under OVERLAP) whatever the threshold (C09_filter_pair). Tie: empty_spec / fp_empty_spec / sound_spec evaluated inside Coq on joins, filter_tables and filter_pair calls over tables salted with empty, delimiter-only and too-short strings. CODE-LEVEL: the function REGENERATED from the Python source on every run (Gen/WrapperGen.v, FilterWrapperGen.v, MatcherGen.v over the frame model Model/Frame.v) is proved to refine the API model end to end, and the composition is stated directly about the code (Cxx_code_* theorems): for all well-formed frames the returned frame has header_spec and its rows, read at key level, satisfy complete_spec/sound_spec/missing_spec/empty_spec.",
    note=TB + AX + "(J/C/D totality). filter_tables empty-pair clause at API level: by correspondence + empty_spec (theorem pending, see DESIGN.md).",
    technique="Coq proof (API-level refinement) ; in-Coq evaluation of specs on implementation output"),
  'C11': dict(ref='6 C11',
@@ -49,11 +49,11 @@ CLAIMED = {
    note=TB + "Closed under the global context. Non-mutation of pandas objects is a syntactic effect summary plus harness snapshots; pandas aliasing is not modelled.",
    technique="Coq proof by reflection over regenerated control skeletons; differential call-history runs"),
  'C14': dict(ref='6 C14',
-   text="Coq theorems: SizeFilter's verdict is a function of the two counts; counts inside the window leave best attainable similarity >= t - 1e-4 over the reals, hence every pair further below is dropped (J/C/D, all doubles in the envelope, counts < 2^20); edit distance: dropped iff counts differ by more than the threshold; Prefix/Position/Overlap filters keep no pair without a common token (any parameters); Position candidates are Prefix candidates and pass the Size window (pair level and API level: C14_api_refine); regenerated index code refines the model. Tie: generated formulas; size_tight_spec, fp_common_token_spec, sound_spec, refine_filters_spec evaluated inside Coq on real filter calls (exhaustive count grid in the thorough tier).",
+   text="Coq theorems: SizeFilter's verdict is a function of the two counts; counts inside the window leave best attainable similarity >= t - 1e-4 over the reals, hence every pair further below is dropped (J/C/D, all doubles in the envelope, counts < 2^20); edit distance: dropped iff counts differ by more than the threshold; Prefix/Position/Overlap filters keep no pair without a common token (any parameters); Position candidates are Prefix candidates and pass the Size window (pair level and API level: C14_api_refine); regenerated index code refines the model. Tie: generated formulas; size_tight_spec, fp_common_token_spec, sound_spec, refine_filters_spec evaluated inside Coq on real filter calls (exhaustive count grid in the thorough tier). Float edit-distance thresholds: C14_size_edit_distance_float.",
    note=TB + AX + "for the tightness arithmetic; structural parts closed.",
    technique="Coq proof (Flocq real arithmetic over translated formulas, loop invariants); in-Coq evaluation of specs on implementation output"),
  'C15': dict(ref='6 C15',
-   text="Coq theorems over regenerated artefacts: in every entry point all validations precede all work (a rejected call has done nothing, tokenizer flag untouched); the generated validate_threshold / validate_comp_op accept exactly the documented ranges and operator sets; no entry point can return (early exits included) before all its validations ran (C15_no_return_before_validation). Tie: translator + the matrix entry point x invalid argument kind x random valid context on the real API (exception class, inputs and tokenizer unchanged), and degenerate valid shapes with object and pandas string dtype returning DataFrames.",
+   text="Coq theorems over regenerated artefacts: in every entry point all validations precede all work (a rejected call has done nothing, tokenizer flag untouched); the generated validate_threshold / validate_comp_op accept exactly the documented ranges and operator sets; no entry point can return (early exits included) before all its validations ran (C15_no_return_before_validation). Tie: translator + the matrix entry point x invalid argument kind x random valid context on the real API (exception class, inputs and tokenizer unchanged), and degenerate valid shapes with object and pandas string dtype returning DataFrames. validate_threshold's exact acceptance set is proved for integer thresholds and for EVERY double incl. NaN and infinities (threshold_float_ranges, after the NaN repair).",
    note=TB + "Closed under the global context. 'Valid calls never rejected' is decided by the harness (totality of the hand model is proved for the join entries: C01_api_total).",
    technique="Coq proof by reflection over regenerated skeletons/validators; differential API matrix runs"),
 }
